@@ -19,6 +19,7 @@ EXPLANATION = ('SNAPSHOT-COMPLETENESS: every field of Group is copied into Snaps
                'mutates under one lock and trims on every write; every SQL statement of the SQLite store runs on the transaction and '
                'commit() is on every success path (a `?` in between drops the transaction = rollback). CODEC of the stored types is '
                'checked under C12. Lock-step behaviour after reload and equality of the two providers are not decided.')
+EXPLANATION += ' TIERED-LOOKUP: the cache of loaded prior epochs is searched linearly by equality (one copy per epoch is flushed). CODEC: size / encode / decode agreement of every type reachable from Snapshot and PriorEpoch.'
 ASSUMPTIONS = ['SQL statement texts are opaque constants; rusqlite::Transaction rolls back on drop']
 
 
